@@ -16,7 +16,7 @@
  * output: one line per op, tokens in execution order:
  *   N pass begins   L main context read kernel.atomic_runq.full_flags   d<f> entry point of f invoked   p<stamp> handler
  *   processed an event   t<0|1> fibre_timeout result   r<y|w> entry point returned   +<f> fetch_or publishing a run request
- *   C<stamp> event buffer claimed and stamped   <lvl><A<f>|E<stamp>>=<result>/<atomic ops>   (E: c = claim failed)
+ *   C<stamp> compare-exchange handing out the event buffer that will carry <stamp>   <lvl><A<f>|E<stamp>>=<result>/<atomic ops>   (E: c = claim failed)
  *   next(<T>):self=<fibre_self>:wake=<returned>:n=<atomic ops> | run(<f>):n=.. | kill(<f>)=<0|1>:n=..
  *   unfired=<scripted calls whose gap never came up>      quiesce: … Q:<idle|busy>:taint=<kernel.taint_flags>
  * A hang (corrupted list) is cut by SIGALRM: "!! HANG", exit 3. */
@@ -132,6 +132,8 @@ void verif_post(const char *op, const volatile void *addr, int order, unsigned l
 	if (!depth)
 		return;
 	frame_t *fr = &stack[depth - 1];
+	if (addr == (const volatile void *)&evq.eventq.sendp && !strcmp(op, "cas_ok") && fr->c->type == 'E')
+		out("C%u", (unsigned)fr->c->arg);                 /* the compare-exchange that hands out the event buffer */
 	if (addr == (const volatile void *)&kernel.atomic_runq.full_flags) {
 		if (!strcmp(op, "fetch_or"))                      /* messageq_send on the atomic run queue: the request is published */
 			out("+%d", fr->c->type == 'A' ? (int)fr->c->arg : 0);
@@ -161,7 +163,6 @@ static void exec_call(call_t *c)
 			out("%dE%u=c/%d", c->lvl, (unsigned)c->arg, stack[depth - 1].ops);
 		} else {
 			*p = (uint32_t)c->arg;
-			out("C%u", (unsigned)c->arg);
 			bool r = fibre_eventq_send(&evq, p);
 			out("%dE%u=%d/%d", c->lvl, (unsigned)c->arg, r ? 1 : 0, stack[depth - 1].ops);
 		}
@@ -371,7 +372,7 @@ int main(void)
 			evdepth = (unsigned)d;
 			memcpy(kind, nk, sizeof kind); memcpy(budget, nb, sizeof budget); memcpy(period, np, sizeof period);
 			do_reset();
-			puts("ok");
+			printf("ok nf=%d\n", n);
 		} else if (!strcmp(op, "next") || !strcmp(op, "run") || !strcmp(op, "kill")) {
 			char type; long long v;
 			char *a = strtok(NULL, " \n");
@@ -400,6 +401,7 @@ int main(void)
 				t = parse_script(mc, NULL, 0, &ok);
 			}
 			if (!ok) { puts("bad-op"); continue; }
+			out("T[");
 			run_item(root);
 		} else if (!strcmp(op, "quiesce")) {
 			if (strtok(NULL, " \n")) { puts("bad-op"); continue; }
